@@ -35,7 +35,7 @@ ASSUMPTIONS = [
     "well-formed = strict identification grammar, data characters exclude '/' and '!', checksum correct (upper-case hex) or absent, each readout < 7000 octets",
     "nothing is demanded about when within the call sequence a readout is returned",
 ]
-MUST_FIRE = {"quick": ["stream_over_8k", "never_in_hunt_mode_for_8k", "cut_between_cr_lf", "leading_tail"], "thorough": ["stream_over_8k", "never_in_hunt_mode_for_8k", "cut_between_cr_lf", "leading_tail", "stream_over_100k"]}
+MUST_FIRE = {"quick": ["stream_over_8k", "never_in_hunt_mode_for_8k", "cut_between_cr_lf", "leading_tail", "bystander_reader_instance"], "thorough": ["stream_over_8k", "never_in_hunt_mode_for_8k", "cut_between_cr_lf", "leading_tail", "stream_over_100k"]}
 
 
 def gen(rng, tier, index):
@@ -77,7 +77,13 @@ def gen(rng, tier, index):
             hot += [pos, pos + raw.index(b"!"), pos + raw.index(b"!") + 1, pos + raw.index(b"\r\n") + 1, pos + ln - 1]
             pos += ln
         cuts = fragment.draw(rng, total + (0 if tail is None else pos - total), hot)
-    yield {"readouts": specs, "tail": tail, "cuts": cuts}
+    sc = {"readouts": specs, "tail": tail, "cuts": cuts}
+    if rng.random() < 0.15:
+        other = p1_gen.build(p1_gen.readout_spec(rng, None, "small"))
+        sc["bystander"] = {"wire": (other[: rng.randint(1, len(other))] + p1_gen.noise(rng, 80)[0]).hex()}
+    if rng.random() < 0.08 and cuts.get("m") != "whole":
+        sc["cuts"] = dict(cuts, **{"as": "bytearray"})
+    yield sc
 
 
 def wire_of(sc):
@@ -108,7 +114,8 @@ def execute(sc):
         if chunk.endswith(b"\r"):
             probes["cut_between_cr_lf"] = probes.get("cut_between_cr_lf", 0) + 1
 
-    fed = reader_rig.feed(reader, wire, sc["cuts"], probe)
+    by = sc.get("bystander")
+    fed = reader_rig.feed(reader, wire, sc["cuts"], probe, (reader_rig.make_reader("p1"), bytes.fromhex(by["wire"])) if by else None)
     viol = []
 
     def add(clause, facts, detail):
@@ -160,6 +167,10 @@ def execute(sc):
         probes["never_in_hunt_mode_for_8k"] = 1
     if sc.get("tail"):
         probes["leading_tail"] = 1
+    if by:
+        probes["bystander_reader_instance"] = 1
+    if sc["cuts"].get("as"):
+        probes["chunks_as_bytearray"] = 1
     probes[f"frag_{sc['cuts']['m']}"] = 1
     return {
         "violations": viol,
@@ -181,6 +192,8 @@ def summarise(sc):
 def candidates(sc):
     if sc.get("tail"):
         yield dict(copy.deepcopy(sc), tail=None)
+    if sc.get("bystander"):
+        yield {k: v for k, v in copy.deepcopy(sc).items() if k != "bystander"}
     for red in shrink.list_reductions(sc["readouts"]):
         if red:
             yield dict(copy.deepcopy(sc), readouts=red)
